@@ -107,6 +107,9 @@ type Engine struct {
 	watchHits    int
 	sleepBudget  int
 	declined     bool
+	anyBlock     FuncV
+	lassoBound   int
+	closedTaken  map[*ssa.Select]int
 	sinkAll      bool
 	onChanEvent  FuncV
 	inChanEvent  bool
@@ -469,6 +472,9 @@ func (e *Engine) resetPathState() {
 	e.watched = nil
 	e.watchHits = 0
 	e.sleepBudget = -1
+	e.anyBlock = FuncV{}
+	e.lassoBound = 0
+	e.closedTaken = nil
 	e.sinkAll = false
 	e.onChanEvent = FuncV{}
 	e.inChanEvent = false
@@ -526,6 +532,36 @@ func (e *Engine) RunOne(fn *ssa.Function, prefix []Decision, wit *Witness) [][]D
 			if !found {
 				e.h.Unmodelled = append(e.h.Unmodelled, det)
 			}
+		}
+	}
+	if v, ok := e.h.Expect[st]; ok && strings.HasPrefix(v, "fail:") {
+		msg := v[5:]
+		stt := e.assertStat(msg, "")
+		stt.Sat++
+		nf := 0
+		for _, f := range e.h.Fails {
+			if f.Msg == msg {
+				nf++
+			}
+		}
+		if nf < 3 {
+			mm := map[string]string{}
+			if wit == nil {
+				if res, model := e.solver.Check(e.path.pc, nil, true); res == "sat" {
+					for k, v := range model {
+						switch v.Kind {
+						case "fp":
+							mm[k] = fmt.Sprintf("fpbits:%016x", math.Float64bits(v.F))
+						case "bool":
+							mm[k] = fmt.Sprint(v.B)
+						default:
+							mm[k] = v.Big.String()
+						}
+					}
+				}
+			}
+			e.h.Fails = append(e.h.Fails, &AssertFail{Harness: e.h.Name, Msg: msg, Pos: det, Model: mm,
+				Choices: e.path.choices(), VChoices: e.path.vchoices(), Params: e.params, Trace: append([]string{}, e.path.trace...)})
 		}
 	}
 	for k := range e.path.reached {
